@@ -590,6 +590,7 @@ class ClauseResult:
         self.unsat = 0
         self.sat = []          # (path index, model values or None, detail)
         self.unknown = 0
+        self.cvc5 = 0          # paths on which z3 answered unknown and cvc5 proved the goal
 
     def verdict(self):
         if self.sat:
@@ -739,7 +740,9 @@ def _one_path(interp, c, fn, shape, ctx, clauses, stats):
         if g is None:
             cr.unknown += 1
             continue
-        r, m = ctx.valid(g)
+        before = getattr(ctx, 'cvc5_unsat', 0)
+        r, m = ctx.valid(g, final=True)
+        cr.cvc5 += getattr(ctx, 'cvc5_unsat', 0) - before
         if r != 'unsat' and os.environ.get('PYVC_DEBUG'):
             print(f'[debug] {c.qualname}[{shape.name}] {label} {detail} -> {r}; trail={ctx.trail}', file=sys.stderr)
             if os.environ.get('PYVC_DEBUG') == '2':
